@@ -12,10 +12,9 @@ CFG = {
         "Swat4.C16.backed_enqueue",
         "Swat4.C16.reported_adds_no_mark",
         "Swat4.C16.outcomes_clear_mark",
+        "Swat4.C16.usecases_filter_sets",
         "Swat4.C16.marked_are_skipped",
-        "Swat4.C16.discover_order",
-        "Swat4.C16.submission_order",
-        "Swat4.C16.retry_order",
+        "Swat4.C16.addServer_marked_noop",
         "Swat4.C16.runChoices_steps",
         "Swat4.C16.report_backed",
         "Swat4.C16.addServer_backed",
@@ -59,8 +58,10 @@ CFG = {
                 "re-enqueue failed without effect => the mark has no probe; C16_interleaved — in any system (USys) of non-popping clients (reporter, "
                 "REST submission, refresher, reviver, cleaners, listing) with valid addresses, under any interleaving of calls, deaths, faults and "
                 "clock ticks, Backed is invariant and the queue only grows. Plus the ordering discipline and status algebra (enqueue precedes mark in "
-                "all three mark-setting paths, reports/keepalives add no mark, only an outcome of a probe of that goal clears a mark, marked servers "
-                "are skipped). The correspondence run validates the model on the real code: every crash and fault placement at every storage command "
+                "all three mark-setting paths, reports/keepalives add no mark, only an outcome of a probe of that goal clears a mark; marked_are_skipped — stated on the filter sets the use cases issue "
+                "(usecases_filter_sets): a details_retry row fails refresh's filter, a port_retry row fails revival's for every scope window, addserver's and "
+                "reportserver's discovery branches return without a repository call for a marked record; addServer_marked_noop — re-submission of a marked server "
+                "changes nothing at any crash/fault point; the shape lemmas discover_order / submission_order / retry_order are definitional and no longer audited). The correspondence run validates the model on the real code: every crash and fault placement at every storage command "
                 "of every mark-setting or mark-consuming use case, Backed oracle (backedB, proved correct: backedB_correct) on the final keyspace. "
                 "stale_readd_unbacked: a further race in the model (no crash, no fault; needs a popper and a removal between a reporter's lookup and "
                 "its Add, which stores the stale marked copy) — outside the harness' scenarios, reported. "
